@@ -221,3 +221,43 @@ def check(ctx):
         wr = [(bi, s) for bi, si, s in fn.stmts() if lib.place_fields(s["lhs"]) and lib.place_fields(s["lhs"])[-1][1] == field]
         ok = len(wr) == 1 and wr[0][1]["rv"]["k"] == "use" and wr[0][1]["rv"]["op"].get("const", {}).get("v") == val
         ctx.require(ok, "R-TABLE", "flags:" + nm.split("::")[-1], "%s sets %s := %s" % (nm.split("::")[-1], field, val), "%s changed" % nm)
+
+
+    # 5. faithfulness across par.  The first catchable failure met below an xor's left branch is the one written to
+    # :error: / %last_error%, and recording it switches further recording off (set_errors ends with
+    # disable_error_setting).  So (a) when both branches of a par fail, the error par RETURNS — the one an uncaught
+    # run reports — must be that first, recorded one, i.e. the left branch's; (b) wherever a swallowed failure makes
+    # %last_error% recordable again (xor's right branch, par ending with a successful branch), :error: is made
+    # recordable again on the same path, otherwise a later failure is reported uncaught but the caught :error: still
+    # shows the swallowed one.
+    ctx.clause("R-TABLE par: both branches failed -> returns the LEFT (first recorded) error; R-SIBLING every site that re-enables %last_error% recording also re-enables :error: recording")
+    pr = F.fn("par::prepare_par_result")
+    rows = {}
+    for st in lib.enumerate_paths(pr, max_paths=20000):
+        res = lib.path_result(pr, st)
+        if res != "Err":
+            continue
+        e = lib.PathProv(pr, st.blocks).local(0)
+        src = "left" if lib.mentions_param(e, "left_result") and not lib.mentions_param(e, "right_result") else \
+            "right" if lib.mentions_param(e, "right_result") and not lib.mentions_param(e, "left_result") else "?"
+        rows.setdefault(src, 0)
+        rows[src] += 1
+    ctx.require(set(rows) == {"left"}, "R-TABLE", "par:both-failed-returns-recorded", "par with two failed branches returns the left branch's error (the one recorded in :error:)",
+                "prepare_par_result returns the %s branch's error when both branches failed, but :error: and %%last_error%% hold the LEFT branch's failure (recording is switched off "
+                "after the first): inside an enclosing xor the error object differs from what the same failure reports uncaught" % sorted(rows),
+                sample={"returns": sorted(rows)})
+    reen = ("LastErrorDescriptor::meet_xor_right_branch", "LastErrorDescriptor::meet_par_successed_end")
+    n_sites = 0
+    for g in F.fns.values():
+        if g.crate != "air":
+            continue
+        for c_ in g.calls_to(lambda c: c.path.endswith(reen)):
+            n_sites += 1
+            en = g.calls_to("ErrorDescriptor::enable_error_setting")
+            ok = bool(en) and (any(g.dominates(c_.bb, e_.bb) for e_ in en) or any(g.dominates(e_.bb, c_.bb) for e_ in en)) and \
+                g.must_pass(c_.target, [e_.bb for e_ in en] + [b for b in g.returns if any(g.dominates(e_.bb, b) for e_ in en)])
+            ctx.require(ok, "R-SIBLING", "error-setting:paired:%s:%s" % (g.path.split("::")[-1], c_.path.split("::")[-1]),
+                        "%s: %s is accompanied by error_descriptor.enable_error_setting()" % (g.path.split("::")[-1], c_.path.split("::")[-1]),
+                        "%s re-enables %%last_error%% recording (%s) without re-enabling :error: recording: after a failure swallowed there, a later failure is reported by an uncaught run "
+                        "but an enclosing xor's :error: still shows the swallowed one" % (g.path, c_.path.split("::")[-1]), sample={"fn": g.path})
+    ctx.floor("R-SIBLING", "sites re-enabling %last_error% recording", n_sites, 2)
